@@ -51,6 +51,14 @@ func stressMain(args []string) {
 		wakeScenario(args[1:])
 		return
 	}
+	if len(args) > 0 && args[0] == "cancelwake" {
+		cancelWakeScenario(args[1:])
+		return
+	}
+	if len(args) > 0 && args[0] == "bulk" {
+		bulkScenario(args[1:])
+		return
+	}
 	if len(args) > 0 && args[0] == "extreme" {
 		extremeScenario(args[1:])
 		return
@@ -515,4 +523,397 @@ func extremeScenario(args []string) {
 		}
 	}
 	fmt.Printf("ok scenario=extreme rounds=%d cases=%d\n", rounds, len(cases)*2)
+}
+
+// cancelWakeScenario is the directed C09 scenario "space freed while producers are blocked and one of
+// them is cancelled" in REAL time:
+//
+//	c08-dq-stress cancelwake <seed> [rounds]
+//
+// Each round (for 2 and 3 producers, three variants): bounded queue of capacity 2, full of already
+// expired elements; the producers park in Enqueue one after the other (own contexts); then
+//   deq+cancel   one Dequeue and the cancellation of the producer that parked first, back to back
+//   cancel+deq   the same in the other order
+//   deq+deq      two Dequeues back to back right after the producers were started (some of them are
+//                still between `signalCh` unlocking the mutex and their select)
+// Accounting that noise cannot falsify: the cancelled producer must return within 3 s; with `freed`
+// successful Dequeues and `errs` producers that returned ctx.Err(), min(freed, producers-errs)
+// Enqueues must have returned nil within 3 s (the queue has room for them).  Afterwards all
+// remaining producers are cancelled, the queue is drained and must accept `capacity` elements without
+// blocking.  Failures: "VIOLATION lost-wakeup:enqueue: ..." / "late-cancel" / "capacity-after-cancel"
+// with variant, round and seed (goroutine dump on stderr).  Replay = the command line.
+func cancelWakeScenario(args []string) {
+	geti := func(i, def int) int {
+		if len(args) > i {
+			if v, err := strconv.Atoi(args[i]); err == nil {
+				return v
+			}
+		}
+		return def
+	}
+	seed := int64(geti(0, 1))
+	rounds := geti(1, 2)
+	const capacity = 2
+	const bound = 3 * time.Second
+	verifhook.SetMode(verifhook.Chaos)
+	r := rand.New(rand.NewSource(seed*977 + 5))
+	expired := func(id int) elem {
+		return elem{id: id, deadline: time.Now().Add(-time.Duration(1+r.Intn(50)) * time.Millisecond)}
+	}
+	fail := func(kind, msg string) {
+		buf := make([]byte, 1<<20)
+		n := runtime.Stack(buf, true)
+		fmt.Printf("VIOLATION %s: %s\n", kind, msg)
+		fmt.Fprintf(os.Stderr, "%s\n", buf[:n])
+	}
+	type pres struct {
+		i   int
+		err error
+	}
+	nrounds := 0
+	for round := 0; round < rounds; round++ {
+		for _, producers := range []int{2, 3} {
+			for _, variant := range []string{"deq+cancel", "cancel+deq", "deq+deq"} {
+				nrounds++
+				where := fmt.Sprintf("scenario cancelwake/%s seed=%d round=%d producers=%d capacity=%d", variant, seed, round, producers, capacity)
+				q := queue.NewDelayQueue[elem](capacity)
+				for i := 0; i < capacity; i++ {
+					if err := q.Enqueue(context.Background(), expired(1+i)); err != nil {
+						fmt.Printf("VIOLATION crash: %s: filling failed: %v\n", where, err)
+						return
+					}
+				}
+				out := make(chan pres, producers)
+				cancels := make([]context.CancelFunc, producers)
+				for i := 0; i < producers; i++ {
+					ctx, cancel := context.WithTimeout(context.Background(), 20*time.Second)
+					cancels[i] = cancel
+					go func(i int) { out <- pres{i, q.Enqueue(ctx, expired(10+i))} }(i)
+					if variant != "deq+deq" {
+						time.Sleep(4 * time.Millisecond) // park in this order
+					}
+				}
+				cancelAll := func() {
+					for _, c := range cancels {
+						c()
+					}
+				}
+				if variant != "deq+deq" {
+					time.Sleep(time.Duration(15+r.Intn(15)) * time.Millisecond)
+				} else if r.Intn(2) == 0 {
+					time.Sleep(time.Duration(r.Intn(300)) * time.Microsecond)
+				}
+				deq := func() bool {
+					ctx, cancel := context.WithTimeout(context.Background(), bound)
+					defer cancel()
+					_, err := q.Dequeue(ctx)
+					if err != nil {
+						fail("hang", fmt.Sprintf("%s: Dequeue of an expired element returned %v", where, err))
+						return false
+					}
+					return true
+				}
+				freed, cancelled := 0, -1
+				switch variant {
+				case "deq+cancel":
+					if !deq() {
+						cancelAll()
+						return
+					}
+					freed, cancelled = 1, 0
+					cancels[0]()
+				case "cancel+deq":
+					cancelled = 0
+					cancels[0]()
+					if !deq() {
+						cancelAll()
+						return
+					}
+					freed = 1
+				case "deq+deq":
+					if !deq() || !deq() {
+						cancelAll()
+						return
+					}
+					freed = 2
+				}
+				t0 := time.Now()
+				succ, errs := 0, 0
+				returned := make([]bool, producers)
+				deadline := time.After(bound)
+				need := func() int {
+					n := producers - errs
+					if freed < n {
+						n = freed
+					}
+					return n
+				}
+				waitingCancelled := cancelled >= 0
+				for waitingCancelled || succ < need() {
+					select {
+					case p := <-out:
+						returned[p.i] = true
+						if p.err == nil {
+							succ++
+						} else {
+							errs++
+							if p.i != cancelled {
+								fail("hang", fmt.Sprintf("%s: Enqueue of producer %d returned %v without being cancelled", where, p.i, p.err))
+								cancelAll()
+								return
+							}
+						}
+						if p.i == cancelled {
+							waitingCancelled = false
+						}
+					case <-deadline:
+						if waitingCancelled {
+							fail("late-cancel", fmt.Sprintf("%s: the cancelled producer has not returned %v after its cancellation", where, bound))
+						} else {
+							blocked := 0
+							for _, b := range returned {
+								if !b {
+									blocked++
+								}
+							}
+							fail("lost-wakeup:enqueue", fmt.Sprintf("%s: %d Dequeue(s) freed space, %d producer(s) returned ctx.Err(), but only %d of %d possible Enqueues returned within %v: %d producer(s) still blocked although the queue has room (Len=%d of %d)",
+								where, freed, errs, succ, need(), time.Since(t0).Round(time.Millisecond), blocked, q.VerifLen(), capacity))
+						}
+						cancelAll()
+						return
+					}
+				}
+				// clean up, then the queue must still take `capacity` elements without blocking
+				cancelAll()
+				left := 0
+				for _, b := range returned {
+					if !b {
+						left++
+					}
+				}
+				for ; left > 0; left-- {
+					select {
+					case <-out:
+					case <-time.After(bound):
+						fail("late-cancel", fmt.Sprintf("%s: a cancelled producer has not returned %v after its cancellation", where, bound))
+						return
+					}
+				}
+				for q.VerifLen() > 0 {
+					if !deq() {
+						return
+					}
+				}
+				for i := 0; i < capacity; i++ {
+					ctx, cancel := context.WithTimeout(context.Background(), bound)
+					err := q.Enqueue(ctx, expired(100+i))
+					cancel()
+					if err != nil {
+						fail("capacity-after-cancel", fmt.Sprintf("%s: after the cancellations the empty queue does not accept element %d of %d: %v", where, i+1, capacity, err))
+						return
+					}
+				}
+			}
+		}
+	}
+	fmt.Printf("ok scenario=cancelwake rounds=%d\n", nrounds)
+}
+
+// pelem is the pointer-typed variant of the harness element.
+type pelem struct {
+	id       int
+	deadline time.Time
+}
+
+func (e *pelem) Delay() time.Duration { return e.deadline.Sub(verifhook.Now()) }
+
+type bulkItem struct {
+	id int
+	dl time.Time
+}
+
+// bulkRun: one queue, one goroutine.  n elements with distinct expiries are enqueued in shuffled order
+// (90% already expired, expiries 1 s apart; a tail of up to 5 elements expiring 50, 100, ... ms in the
+// future), then drained; whenever a quarter is left, 64 more (expired, expiries between the old ones)
+// are enqueued, three times, so that an unbounded queue grows and shrinks repeatedly.  Every Dequeue
+// must return the element with the earliest expiry among those in the queue (sorted reference) and
+// never before its expiry.  Expired elements are 1 s apart, so no scheduling noise can reorder them;
+// for the future tail (50 ms apart) a difference below tol() is not reported.
+func bulkRun[T queue.Delayable](what string, seed int64, n, capacity int, mk func(int, time.Time) T, idOf func(T) int, tol func() time.Duration) string {
+	r := rand.New(rand.NewSource(seed*7919 + int64(n)))
+	q := queue.NewDelayQueue[T](capacity)
+	base := time.Now()
+	var ref []bulkItem // in the queue, sorted by expiry
+	insert := func(it bulkItem) string {
+		if err := q.Enqueue(context.Background(), mk(it.id, it.dl)); err != nil {
+			return fmt.Sprintf("crash: %s: Enqueue failed: %v", what, err)
+		}
+		i := sort.Search(len(ref), func(i int) bool { return ref[i].dl.After(it.dl) })
+		ref = append(ref, bulkItem{})
+		copy(ref[i+1:], ref[i:])
+		ref[i] = it
+		return ""
+	}
+	tail := 5
+	items := make([]bulkItem, 0, n)
+	for i := 0; i < n-tail; i++ {
+		items = append(items, bulkItem{id: i, dl: base.Add(-time.Duration(2*(i+1)) * time.Second)})
+	}
+	for j := 0; j < tail; j++ {
+		items = append(items, bulkItem{id: n - tail + j, dl: base.Add(time.Duration(50*(j+1)) * time.Millisecond)})
+	}
+	r.Shuffle(len(items), func(i, j int) { items[i], items[j] = items[j], items[i] })
+	for _, it := range items {
+		if m := insert(it); m != "" {
+			return m
+		}
+	}
+	refills, nextID, pos := 0, n, 0
+	for len(ref) > 0 {
+		if refills < 3 && len(ref) <= n/4 {
+			refills++
+			extra := make([]bulkItem, 0, 64)
+			for k := 0; k < 64; k++ { // odd seconds: between the expiries used so far
+				extra = append(extra, bulkItem{id: nextID, dl: base.Add(-time.Duration(2*(r.Intn(n)+1)+1)*time.Second - time.Duration(nextID)*time.Microsecond)})
+				nextID++
+			}
+			for _, it := range extra {
+				if m := insert(it); m != "" {
+					return m
+				}
+			}
+		}
+		ctx, cancel := context.WithTimeout(context.Background(), 5*time.Second)
+		v, err := q.Dequeue(ctx)
+		var delay time.Duration
+		if err == nil {
+			delay = v.Delay()
+		}
+		cancel()
+		want := ref[0]
+		if err != nil {
+			return fmt.Sprintf("hang: %s: Dequeue #%d returned %v although element %d expired %v ago (Len=%d)", what, pos, err, want.id, time.Since(want.dl).Round(time.Millisecond), q.VerifLen())
+		}
+		if delay > 0 {
+			return fmt.Sprintf("early: %s: Dequeue #%d returned element %d %v before its expiry", what, pos, idOf(v), delay)
+		}
+		got := idOf(v)
+		if got != want.id {
+			gi := -1
+			for i := range ref {
+				if ref[i].id == got {
+					gi = i
+				}
+			}
+			if gi < 0 {
+				return fmt.Sprintf("once: %s: Dequeue #%d returned element %d which is not in the queue", what, pos, got)
+			}
+			if ref[gi].dl.Sub(want.dl) > tol() {
+				return fmt.Sprintf("not-earliest: %s: Dequeue #%d (after %d refills, %d left) returned element %d (expiry %+v relative to the start) while element %d (expiry %+v, i.e. %v earlier) is in the queue; %d elements in the queue expire before the returned one",
+					what, pos, refills, len(ref), got, ref[gi].dl.Sub(base).Round(time.Millisecond), want.id, want.dl.Sub(base).Round(time.Millisecond),
+					ref[gi].dl.Sub(want.dl).Round(time.Millisecond), gi)
+			}
+			ref = append(ref[:gi], ref[gi+1:]...)
+		} else {
+			ref = ref[1:]
+		}
+		pos++
+	}
+	if l := q.VerifLen(); l != 0 {
+		return fmt.Sprintf("once: %s: %d elements left after the reference is empty", what, l)
+	}
+	return ""
+}
+
+// bulkScenario is the directed C08 scenario "bulk-order" (sequential clients, real time):
+//
+//	c08-dq-stress bulk <seed> [N ...]     (default N = 100 300 1000)
+//
+// for every N: unbounded and large bounded queue, value-typed and pointer-typed elements (the
+// variants run in parallel, each on its own queue).  Replay = the command line.
+func bulkScenario(args []string) {
+	seed := int64(1)
+	if len(args) > 0 {
+		if v, err := strconv.Atoi(args[0]); err == nil {
+			seed = int64(v)
+		}
+	}
+	var sizes []int
+	rest := args
+	if len(rest) > 0 {
+		rest = rest[1:]
+	}
+	for _, a := range rest {
+		if v, err := strconv.Atoi(a); err == nil && v >= 16 {
+			sizes = append(sizes, v)
+		}
+	}
+	if len(sizes) == 0 {
+		sizes = []int{100, 300, 1000}
+	}
+	verifhook.SetMode(verifhook.Chaos)
+	var noise atomic.Int64
+	stop := make(chan struct{})
+	go func() {
+		for {
+			select {
+			case <-stop:
+				return
+			default:
+			}
+			t0 := time.Now()
+			time.Sleep(time.Millisecond)
+			if d := time.Since(t0) - time.Millisecond; int64(d) > noise.Load() {
+				noise.Store(int64(d))
+			}
+		}
+	}()
+	tol := func() time.Duration { return 20*time.Millisecond + 2*time.Duration(noise.Load()) }
+	var mu sync.Mutex
+	var bad []string
+	var wg sync.WaitGroup
+	run := func(f func() string) {
+		wg.Add(1)
+		go func() {
+			defer wg.Done()
+			if m := f(); m != "" {
+				mu.Lock()
+				bad = append(bad, m)
+				mu.Unlock()
+			}
+		}()
+	}
+	for _, n := range sizes {
+		n := n
+		for _, capacity := range []int{0, n + 256} {
+			capacity := capacity
+			w := fmt.Sprintf("scenario bulk-order seed=%d N=%d capacity=%d", seed, n, capacity)
+			run(func() string {
+				return bulkRun[elem](w+" value elements", seed, n, capacity,
+					func(id int, dl time.Time) elem { return elem{id: id, deadline: dl} }, func(e elem) int { return e.id }, tol)
+			})
+			run(func() string {
+				return bulkRun[*pelem](w+" pointer elements", seed, n, capacity,
+					func(id int, dl time.Time) *pelem { return &pelem{id: id, deadline: dl} },
+					func(e *pelem) int {
+						if e == nil {
+							return -1
+						}
+						return e.id
+					}, tol)
+			})
+		}
+	}
+	wg.Wait()
+	close(stop)
+	if len(bad) > 0 {
+		sort.Strings(bad)
+		for i, m := range bad {
+			if i < 4 {
+				fmt.Println("VIOLATION " + m)
+			}
+		}
+		return
+	}
+	fmt.Printf("ok scenario=bulk-order sizes=%v variants=%d noise=%v\n", sizes, 4*len(sizes), time.Duration(noise.Load()))
 }
